@@ -1,6 +1,190 @@
 """Mutation census (thorough tier): systematic single-node mutants of the functions a property is anchored in,
-analysed (never run) by the property's rules.  Reports how many the rules flag; never affects the exit code."""
+analysed (never run) by the property's rules.  Reports how many the rule set flags, how many it cannot read and
+which survive, so that the blind spots are visible.  The census never affects the exit code: a surviving mutant may
+well be behaviour-preserving (no equivalence check is attempted), so survivors are a reading list, not findings."""
+import ast
+import copy
+import os
+import random
+import multiprocessing as mp
+from .core import disk_provider, overlay_provider, FILES, KINDS
+
+LAW = ["%s.%s" % (k, m) for k in KINDS for m in ("_solv_inp_curr", "_solv_outp_volt", "_solv_pwr_loss")]
+CTORS = ["%s.__init__" % k for k in KINDS]
+EDIT = ["System.add_source", "System.add_comp", "System.change_comp", "System.del_comp", "System.set_sys_phases", "System.set_comp_phases",
+        "System._chk_parent", "System._chk_comp", "System._chk_name"]
+
+ANCHORS = {
+    "C01": [("components", [x for x in LAW if not x.endswith("_pwr_loss")] + ["_calc_inp_current"]), ("system", ["System._child_curr", "System._fwd_prop", "System._back_prop", "System.solve"])],
+    "C02": [("components", [x for x in LAW if x.endswith("_pwr_loss")] + ["_get_eff"]), ("system", ["System.solve"])],
+    "C03": [("system", ["System._solve", "System.solve"]), ("components", [x for x in LAW if x.endswith("_outp_volt")])],
+    "C04": [("components", LAW + ["Source._get_state", "_calc_inp_current"]), ("system", ["System._sys_init", "System._solve", "System._set_phase_lkup"])],
+    "C05": [("components", ["PMux._get_pri_inp", "PMux._solv_inp_curr", "PMux._solv_outp_volt", "_Component._get_pri_inp"]),
+            ("system", ["System._child_curr", "System._find_domain", "System._get_parents", "System.add_comp", "System.solve"])],
+    "C06": [("components", [x for x in LAW if x.split(".")[0] in ("PLoad", "ILoad", "RLoad", "Source", "Converter", "LinReg", "PSwitch", "PMux")]),
+            ("system", ["System.solve", "System._solve", "System._set_phase_lkup", "System.set_sys_phases", "System._sys_init"])],
+    "C07": [("system", ["System.solve", "System._calc_energy", "System._find_domain"])],
+    "C08": [("system", ["System.rail_rep", "System.solve"])],
+    "C09": [("components", ["_get_warns", "_Component._solv_get_warns", "_Component._get_limits"] + ["%s._get_limits" % k for k in ("Source", "PLoad", "ILoad", "RLoad", "Converter")]), ("system", ["System.solve"])],
+    "C10": [("components", ["_Interp1d.__init__", "_Interp1d._interp", "_Interp2d.__init__", "_Interp2d._interp", "_check_interp"] + CTORS)],
+    "C11": [("components", CTORS + ["_check_limits", "_check_interp", "_Interp1d.__init__", "_Interp2d.__init__"])],
+    "C12": [("system", ["System.save", "System.from_file", "System._get_applims"])],
+    "C13": [("components", ["_Component.from_file", "LinReg.from_file"])],
+    "C14": [("system", EDIT[:4] + EDIT[6:]), ("components", ["%s._child_types" % k for k in ("Source", "PLoad", "RLoss", "Converter")])],
+    "C15": [("system", EDIT)],
+    "C16": [("system", EDIT[:4] + ["System._rel_update", "System._get_parents", "System._get_childs", "System._sys_vars", "System._pars_and_limits", "System.phases", "System._filt_lim"])],
+    "C17": [("system", ["System.batt_life", "System.solve", "System._set_phase_lkup", "System._sys_vars"]), ("diagram", ["_diag", "_prep_loss", "get_conf"]), ("components", ["_Component._get_params", "PLoad._solv_inp_curr"])],
+    "C18": [("system", ["System.batt_life"])],
+    "C19": [("diagram", ["_diag", "_prep_loss", "_gcolor", "_nice_float", "make_hdiag", "make_diag"])],
+    "C20": [("utils", ["trace_res", "plane_res"])],
+}
+
+CMP_FLIP = {ast.Lt: ast.LtE, ast.LtE: ast.Lt, ast.Gt: ast.GtE, ast.GtE: ast.Gt, ast.Eq: ast.NotEq, ast.NotEq: ast.Eq, ast.In: ast.NotIn, ast.NotIn: ast.In,
+            ast.Is: ast.IsNot, ast.IsNot: ast.Is}
+BIN_FLIP = {ast.Add: ast.Sub, ast.Sub: ast.Add, ast.Mult: ast.Div, ast.Div: ast.Mult}
 
 
-def run(prop):
-    return {"mutants": 0, "flagged": 0, "unreadable": 0, "survived": 0, "note": "census not built yet"}
+def find_function(tree, qual):
+    parts = qual.split(".")
+    body = tree.body
+    node = None
+    for p in parts:
+        node = None
+        for n in body:
+            if isinstance(n, (ast.FunctionDef, ast.ClassDef)) and n.name == p:
+                node = n
+                break
+        if node is None:
+            return None
+        body = node.body
+    return node if isinstance(node, ast.FunctionDef) else None
+
+
+def sites(fn):
+    """(kind, path-index) for every mutation site inside a function, in a deterministic order"""
+    out = []
+    for i, n in enumerate(ast.walk(fn)):
+        if isinstance(n, ast.Compare) and len(n.ops) == 1 and type(n.ops[0]) in CMP_FLIP:
+            out.append(("cmp", i))
+        elif isinstance(n, ast.BinOp) and type(n.op) in BIN_FLIP:
+            out.append(("bin", i))
+        elif isinstance(n, ast.BoolOp):
+            out.append(("bool", i))
+        elif isinstance(n, ast.Constant) and isinstance(n.value, (int, float)) and not isinstance(n.value, bool):
+            out.append(("const", i))
+        elif isinstance(n, ast.If):
+            out.append(("negate", i))
+        elif isinstance(n, ast.Call) and len(n.args) >= 2 and not any(isinstance(a, ast.Starred) for a in n.args):
+            out.append(("swapargs", i))
+        elif isinstance(n, (ast.Assign, ast.AugAssign)) or (isinstance(n, ast.Expr) and isinstance(n.value, ast.Call)):
+            out.append(("delete", i))
+        elif isinstance(n, ast.Subscript) and isinstance(n.slice, ast.Constant) and n.slice.value in (0, 1):
+            out.append(("index", i))
+    return out
+
+
+def apply_site(fn, kind, idx):
+    for i, n in enumerate(ast.walk(fn)):
+        if i != idx:
+            continue
+        if kind == "cmp":
+            n.ops = [CMP_FLIP[type(n.ops[0])]()]
+        elif kind == "bin":
+            n.op = BIN_FLIP[type(n.op)]()
+        elif kind == "bool":
+            n.op = ast.Or() if isinstance(n.op, ast.And) else ast.And()
+        elif kind == "const":
+            n.value = (n.value + 1) if isinstance(n.value, int) else (1.0 if n.value == 0.0 else n.value * 2)
+        elif kind == "negate":
+            n.test = ast.UnaryOp(op=ast.Not(), operand=n.test)
+        elif kind == "swapargs":
+            n.args[0], n.args[1] = n.args[1], n.args[0]
+        elif kind == "delete":
+            return "delete", n
+        elif kind == "index":
+            n.slice = ast.Constant(value=1 - n.slice.value)
+        return kind, n
+    return None, None
+
+
+def replace_stmt(root, target):
+    for parent in ast.walk(root):
+        for fld in ("body", "orelse", "finalbody"):
+            blk = getattr(parent, fld, None)
+            if isinstance(blk, list):
+                for j, s in enumerate(blk):
+                    if s is target:
+                        blk[j] = ast.copy_location(ast.Pass(), s)
+                        return True
+    return False
+
+
+def mutants(prop, base, limit, seed):
+    """-> list of (description, overlay)"""
+    cand = []
+    for mod, quals in ANCHORS.get(prop, []):
+        text = base(FILES[mod])
+        tree = ast.parse(text)
+        for q in quals:
+            fn = find_function(tree, q)
+            if fn is None:
+                continue
+            for kind, idx in sites(fn):
+                cand.append((mod, q, kind, idx))
+    rnd = random.Random(seed * 7919 + sum(ord(c) for c in prop))
+    rnd.shuffle(cand)
+    cand = sorted(cand[:limit])
+    out = []
+    cache = {}
+    for mod, q, kind, idx in cand:
+        if mod not in cache:
+            cache[mod] = base(FILES[mod])
+        tree = ast.parse(cache[mod])
+        fn = find_function(tree, q)
+        k, node = apply_site(fn, kind, idx)
+        if k is None:
+            continue
+        line = getattr(node, "lineno", 0)
+        try:
+            snippet = ast.unparse(node.test if kind == "negate" else node).replace("\n", " ")[:70]
+        except Exception:
+            snippet = ""
+        if k == "delete":
+            if not replace_stmt(fn, node):
+                continue
+        ast.fix_missing_locations(tree)
+        try:
+            new = ast.unparse(tree) + "\n"
+            ast.parse(new)
+        except Exception:
+            continue
+        out.append(("%s %s.%s -> `%s`" % (kind, mod, q, snippet), {FILES[mod]: new}))
+    return out, len(cand)
+
+
+def _job(args):
+    prop, desc, ov = args
+    from .engine import verdict
+    base = disk_provider()
+    st, det = verdict(prop, overlay_provider(base, ov))
+    return desc, st, (det[0][:160] if det else "")
+
+
+def run(prop, limit=None, procs=16):
+    limit = limit or int(os.environ.get("VERIF_CENSUS", "160"))
+    seed = int(os.environ.get("VERIF_SEED", "0") or 0)
+    base = disk_provider()
+    ms, total = mutants(prop, base, limit, seed)
+    if not ms:
+        return {"mutants": 0, "flagged": 0, "unreadable": 0, "survived": 0, "note": "no anchor function found"}
+    jobs = [(prop, d, ov) for d, ov in ms]
+    with mp.get_context("fork").Pool(min(procs, len(jobs))) as pool:
+        res = pool.map(_job, jobs, chunksize=2)
+    flagged = [r for r in res if r[1] == "violation"]
+    unread = [r for r in res if r[1] == "error"]
+    surv = [r for r in res if r[1] == "ok"]
+    return {"mutants": len(res), "flagged": len(flagged), "unreadable": len(unread), "survived": len(surv),
+            "operators": sorted({r[0].split()[0] for r in res}),
+            "survivors": [r[0] for r in surv][:60],
+            "unreadable_examples": [(r[0], r[2]) for r in unread][:10],
+            "note": "single-node AST mutants of the anchored functions (sampled deterministically from VERIF_SEED); survivors may be behaviour-preserving or outside the property - they are a reading list, not findings"}
